@@ -857,7 +857,111 @@ def arith(l, r, f):
     return f(zi(l), zi(r))
 
 
+_UNKNOWN_REP = object()
+
+
+def fmt_rep(v):
+    """A concrete representative of v's formatting class (int, float, str, None, or a type that inherits
+    object.__format__), or _UNKNOWN_REP when the class of v is not certain.  Whether str.format / % raises
+    TypeError or ValueError depends on that class only (the 'c' conversion aside, see callers)."""
+    if v is None:
+        return None
+    if isinstance(v, (bool, SBool)):
+        return True
+    if isinstance(v, float) or is_real(v):
+        return 1.5
+    if isinstance(v, (int, SInt)):
+        return 5
+    if isinstance(v, str):
+        return v
+    if isinstance(v, SStr):
+        return 'a'
+    if isinstance(v, SBytes):
+        return bytearray(b'a') if v.mutable else b'a'
+    if isinstance(v, SList):
+        return []
+    if isinstance(v, tuple):
+        reps = [fmt_rep(x) for x in v]
+        return _UNKNOWN_REP if any(x is _UNKNOWN_REP for x in reps) else tuple(reps)
+    return _UNKNOWN_REP
+
+
+def format_check(ex, fmt, args, kwargs):
+    """str.format: raise what CPython raises where that is determined by the format string and the argument
+    classes alone (IndexError / KeyError for a missing argument, TypeError for a format spec on a type without
+    __format__ support such as None or bytes, ValueError for a wrong presentation type)."""
+    import string
+    if not isinstance(fmt, str):
+        return
+    try:
+        fields = list(string.Formatter().parse(fmt))
+    except ValueError as e:
+        ex.throw('ValueError', str(e))
+    auto = 0
+    for lit, name, spec, conv in fields:
+        if name is None:
+            continue
+        if any(ch in name for ch in '.['):
+            first = name.split('.')[0].split('[')[0]
+            plain = False
+        else:
+            first, plain = name, True
+        if first == '':
+            idx = auto
+            auto += 1
+        elif first.isdigit():
+            idx = int(first)
+        else:
+            idx = None
+        if idx is not None:
+            if idx >= len(args):
+                ex.throw('IndexError', 'Replacement index %d out of range for positional args tuple' % idx)
+            v = args[idx]
+        else:
+            if first not in kwargs:
+                ex.throw('KeyError', first)
+            v = kwargs[first]
+        if plain and isinstance(v, SObj) and not ex.hooks.get('opaque_str', True):
+            # object.__format__ is str(self) for an empty spec: the class's own __str__ / __repr__ runs
+            f, _c = v.cls.lookup('__format__')
+            if isinstance(f, FuncVal) and conv is None:
+                ex.call(BoundMethod(v, f), [spec or ''], {})
+            else:
+                f, _c = v.cls.lookup('__repr__' if conv in ('r', 'a') else '__str__')
+                if isinstance(f, FuncVal):
+                    ex.call(BoundMethod(v, f), [], {})
+        if not plain or not spec or '{' in spec or 'c' in spec:
+            continue
+        rep = fmt_rep(v)
+        if rep is _UNKNOWN_REP:
+            continue
+        if conv in ('r', 's', 'a'):
+            rep = 'a'
+        try:
+            format(rep, spec)
+        except TypeError as e:
+            ex.throw('TypeError', str(e))
+        except ValueError as e:
+            ex.throw('ValueError', str(e))
+
+
+def percent_check(ex, fmt, arg):
+    """str % args: TypeError / ValueError where the format string and the argument classes determine it"""
+    if not isinstance(fmt, str) or '%c' in fmt or '*' in fmt or '%(' in fmt:
+        return
+    rep = fmt_rep(arg)
+    if rep is _UNKNOWN_REP:
+        return
+    try:
+        fmt % rep
+    except TypeError as e:
+        ex.throw('TypeError', str(e))
+    except ValueError as e:
+        ex.throw('ValueError', str(e))
+
+
 def str_percent(ex, fmt, arg):
+    percent_check(ex, fmt, arg)
     args = list(arg) if isinstance(arg, tuple) else [arg]
     if isinstance(fmt, str) and all(isinstance(a, (int, str, float)) and not isinstance(a, bool) or a is None
                                     for a in args):
